@@ -32,11 +32,13 @@ type Inner struct {
 	// Host header), abs-http, abs-https (absolute-form targets).
 	Form   string `json:"form"`
 	Hijack bool   `json:"hijack,omitempty"` // the request modifier hijacks on this request
+	// MarkInsecure: the request modifier calls Session.MarkInsecure() on this request.
+	MarkInsecure bool `json:"mark_insecure,omitempty"`
 }
 
 // Case is one client connection.
 type Case struct {
-	Listener    string  `json:"listener"` // plain | shaped | transparent
+	Listener    string  `json:"listener"` // plain | shaped | transparent | shaped-transparent (shaping around a TLS listener) | tls-connect (CONNECT sent over a TLS connection to the proxy, second handshake inside)
 	SNI         bool    `json:"sni"`
 	PlainInside bool    `json:"plain_inside,omitempty"` // no TLS handshake inside the CONNECT tunnel
 	Inner       []Inner `json:"inner"`
@@ -103,6 +105,11 @@ func (p *probe) ModifyRequest(req *http.Request) error {
 			}
 		}
 	}
+	if req.Header.Get("X-Verif-Mark-Insecure") == "1" && ctx != nil {
+		// what this modifier does to the session concerns this exchange; the next
+		// request decrypted from the tunnel is again a request from a TLS connection
+		ctx.Session().MarkInsecure()
+	}
 	p.mu.Lock()
 	p.calls = append(p.calls, s)
 	p.mu.Unlock()
@@ -111,8 +118,8 @@ func (p *probe) ModifyRequest(req *http.Request) error {
 
 func (c Case) mode() string {
 	switch {
-	case c.Listener == "transparent":
-		return "transparent"
+	case c.Listener == "transparent" || c.Listener == "shaped-transparent":
+		return c.Listener
 	case c.PlainInside:
 		return "connect-" + c.Listener + "-plain-inside"
 	}
@@ -221,8 +228,10 @@ func runOnce(c Case, T time.Duration) (v kit.Verdict) {
 	switch c.Listener {
 	case "shaped":
 		wrap = func(l net.Listener) net.Listener { return trafficshape.NewListener(l) }
-	case "transparent":
+	case "transparent", "tls-connect":
 		wrap = func(l net.Listener) net.Listener { return tls.NewListener(l, mc.TLS()) }
+	case "shaped-transparent":
+		wrap = func(l net.Listener) net.Listener { return trafficshape.NewListener(tls.NewListener(l, mc.TLS())) }
 	}
 	pr := netkit.Start(p, wrap)
 	defer pr.Stop(5 * time.Second)
@@ -251,7 +260,7 @@ func runOnce(c Case, T time.Duration) (v kit.Verdict) {
 		}}
 	}
 	upgrade := func() bool {
-		tc := tls.Client(raw, tlsConf)
+		tc := tls.Client(conn, tlsConf)
 		tc.SetDeadline(time.Now().Add(T))
 		if err := tc.Handshake(); err != nil {
 			class := "handshake-failed"
@@ -267,11 +276,23 @@ func runOnce(c Case, T time.Duration) (v kit.Verdict) {
 		return true
 	}
 	var connectSess bool
-	if c.Listener == "transparent" {
+	if c.Listener == "transparent" || c.Listener == "shaped-transparent" {
 		if !upgrade() {
 			return v
 		}
 	} else {
+		if c.Listener == "tls-connect" {
+			// the connection to the proxy is itself TLS (under another name); the
+			// tunnel's own handshake follows inside it
+			oc := tls.Client(raw, &tls.Config{RootCAs: pool, ServerName: "proxy.test"})
+			oc.SetDeadline(time.Now().Add(T))
+			if err := oc.Handshake(); err != nil {
+				return kit.Failf("C05/"+m+"/outer-handshake/failed", "TLS handshake with the proxy's listener failed: %v", err)
+			}
+			oc.SetDeadline(time.Time{})
+			conn = oc
+			br = bufio.NewReader(oc)
+		}
 		conn.SetWriteDeadline(time.Now().Add(5 * time.Second))
 		fmt.Fprintf(conn, "CONNECT %s HTTP/1.1\r\nHost: %s\r\nX-Verif-Id: connect\r\n\r\n", authority, authority)
 		conn.SetReadDeadline(time.Now().Add(T))
@@ -326,6 +347,9 @@ func runOnce(c Case, T time.Duration) (v kit.Verdict) {
 		}
 		if in.Hijack {
 			sb.WriteString("X-Verif-Hijack: 1\r\n")
+		}
+		if in.MarkInsecure {
+			sb.WriteString("X-Verif-Mark-Insecure: 1\r\n")
 		}
 		sb.WriteString("\r\n")
 		sents = append(sents, sent{id, in.Form, in.Hijack, wantHost})
@@ -486,15 +510,17 @@ func min(a, b int) int {
 
 func genCase(t *rapid.T) Case {
 	c := Case{
-		Listener: rapid.SampledFrom([]string{"plain", "plain", "shaped", "transparent"}).Draw(t, "listener"),
+		Listener: rapid.SampledFrom([]string{"plain", "plain", "shaped", "transparent", "shaped-transparent", "tls-connect"}).Draw(t, "listener"),
 		SNI:      rapid.IntRange(0, 3).Draw(t, "sni") != 0,
 	}
-	if c.Listener == "transparent" {
+	transparent := c.Listener == "transparent" || c.Listener == "shaped-transparent"
+	if transparent {
 		c.SNI = true
-	} else if rapid.IntRange(0, 7).Draw(t, "plain_inside") == 0 {
+	} else if c.Listener != "tls-connect" && rapid.IntRange(0, 7).Draw(t, "plain_inside") == 0 {
+		// (inside a TLS connection to the proxy even "plain" tunnel traffic arrives over TLS)
 		c.PlainInside = true
 	}
-	if c.Listener != "transparent" && !c.PlainInside && rapid.IntRange(0, 4).Draw(t, "rewrite") == 0 {
+	if !transparent && !c.PlainInside && rapid.IntRange(0, 4).Draw(t, "rewrite") == 0 {
 		c.RewriteConnect = true
 	}
 	c.Transport = rapid.SampledFrom([]string{"", "", "", "dialtls", "dialtls", "dialcontext"}).Draw(t, "transport")
@@ -512,13 +538,15 @@ func genCase(t *rapid.T) Case {
 			// which authority a Host-less request falls back to after a rewrite is not defined by the statement
 			forms = []string{"origin", "origin", "abs-http", "abs-https"}
 		}
-		if c.Listener == "transparent" {
+		if transparent {
 			// no CONNECT, hence no tunnel authority to fall back on
 			forms = []string{"origin", "origin", "abs-http", "abs-https"}
 		}
 		in := Inner{Form: rapid.SampledFrom(forms).Draw(t, "form")}
 		if rapid.IntRange(0, 11).Draw(t, "hijack") == 0 {
 			in.Hijack = true
+		} else if !c.PlainInside && rapid.IntRange(0, 7).Draw(t, "mark_insecure") == 0 {
+			in.MarkInsecure = true
 		}
 		c.Inner = append(c.Inner, in)
 		if in.Hijack {
@@ -565,6 +593,9 @@ func classes(c Case) []string {
 		set["form-"+in.Form] = true
 		if in.Hijack {
 			set["hijack"] = true
+		}
+		if in.MarkInsecure {
+			set["modifier-marks-session-insecure"] = true
 		}
 	}
 	for k := range set {
